@@ -182,4 +182,43 @@ theorem lc_keeps_balanced (lb : LB) (hn : 0 < lb.size) (hb : Balanced lb) :
   have hji := hb j i hj hlt
   rw [getD_set _ _ _ _ hlt, getD_set _ _ _ _ hlt]
   split <;> split <;> subst_vars <;> omega
+
+theorem add_mod_inj (s n a b : Nat) (ha : a < n) (hb : b < n) (h : (s + a) % n = (s + b) % n) : a = b := by
+  have h1 := Nat.div_add_mod (s + a) n
+  have h2 := Nat.div_add_mod (s + b) n
+  rw [h] at h1
+  rcases Nat.lt_trichotomy ((s + a) / n) ((s + b) / n) with hq | hq | hq
+  · have := Nat.mul_le_mul_left n (Nat.succ_le_of_lt hq)
+    rw [Nat.mul_succ] at this; omega
+  · rw [hq] at h1; omega
+  · have := Nat.mul_le_mul_left n (Nat.succ_le_of_lt hq)
+    rw [Nat.mul_succ] at this; omega
+
+theorem mem_shift (s n j : Nat) (hj : j < n) : ∃ i, i < n ∧ (s + i) % n = j := by
+  refine ⟨(j + (n - s % n)) % n, Nat.mod_lt _ (by omega), ?_⟩
+  have hs : s % n < n := Nat.mod_lt _ (by omega)
+  have : s % n + (j + (n - s % n)) = j + n := by omega
+  rw [Nat.add_mod, Nat.mod_mod, Nat.add_mod_mod, this, Nat.add_mod_right, Nat.mod_eq_of_lt hj]
+
+/-- any `N` consecutive round-robin choices (counter not wrapping inside the window) are a permutation of the loops -/
+theorem rr_window (lb : LB) (hn : 0 < lb.size) (hw : lb.nextIndex.toNat + lb.size ≤ 2 ^ 64)
+    (j : Nat) (hj : j < lb.size) : (rrRun lb lb.size).count j = 1 := by
+  rw [rr_cyclic lb hn]
+  have e : (List.range lb.size).map (fun i => (lb.nextIndex.toNat + i) % 2 ^ 64 % lb.size)
+      = (List.range lb.size).map (fun i => (lb.nextIndex.toNat + i) % lb.size) := by
+    apply List.map_congr_left
+    intro i hi
+    have hi' : i < lb.size := List.mem_range.mp hi
+    rw [Nat.mod_eq_of_lt (show lb.nextIndex.toNat + i < 2 ^ 64 by omega)]
+  rw [e]
+  have hnd : ((List.range lb.size).map (fun i => (lb.nextIndex.toNat + i) % lb.size)).Nodup := by
+    rw [List.Nodup, List.pairwise_map]
+    refine List.Pairwise.imp_of_mem ?_ (List.pairwise_lt_range (n := lb.size))
+    intro a b ha hb hab heq
+    have := add_mod_inj _ _ a b (List.mem_range.mp ha) (List.mem_range.mp hb) heq
+    omega
+  have hmem : j ∈ (List.range lb.size).map (fun i => (lb.nextIndex.toNat + i) % lb.size) := by
+    obtain ⟨i, hi, he⟩ := mem_shift lb.nextIndex.toNat lb.size j hj
+    exact List.mem_map.mpr ⟨i, List.mem_range.mpr hi, he⟩
+  rw [List.Nodup.count hnd, if_pos hmem]
 end Gnet.Proofs.LB
